@@ -100,10 +100,14 @@ def block_exit_oracle(rows):
         if depth != 0:
             continue
         b = r["from"]
-        without = [dict(x) for x in rows]
+        # the clause is about what THIS edge does: the sheet is cut right after row R (depth 0, so the prefix is a
+        # well-nested sheet) — rows after R may connect, in the run without the edge, exits that the edge would have
+        # connected (a later go_to from another block, F-C03-a forwarding), which is their doing, not the edge's
+        upto = [dict(x) for x in rows[:k + 1]]
+        without = [dict(x) for x in upto]
         without[k]["from"] = "start"
         a = _compile_raw(without)
-        c = _compile_raw(rows)
+        c = _compile_raw(upto)
         if a is None or c is None or len(a["nodes"]) != len(c["nodes"]) or b not in a["groups"]:
             continue
         probes += 1
